@@ -185,6 +185,9 @@ var c09Ops = []string{
 	`n := 0; for _, a := range [svc.Any(1), svc.Any(2)] { n += a[0] }; out.append(n)`,
 	`func mkf(i) { g := func(x) { h := func() { return x + i }; return h() }; return g(i + 1) }; t := spawn(func() { return mkf(1) }); tr := spawn(func() { return mkf(3) }); out.append([mkf(5), t.wait(), tr.wait()])`,
 	`func deep1(a) { func deep2(b) { func deep3(c) { return a + b + c }; return deep3(b + 1) }; return deep2(a + 1) }; t := spawn(deep1, 1); out.append([deep1(2), t.wait()])`,
+	`out.append(try(func() { import badmod; return badmod.ok() }, func(e) { return string(e) }))`,
+	`out.append(try(func() { import badmod2; return badmod2.x }, func(e) { return string(e) }))`,
+	`t := spawn(func() { return try(func() { import badmod; return 1 }, func(e) { return string(e) }) }); out.append(t.wait())`,
 	`import statemod; statemod.bump(); statemod.bump(); out.append(statemod.count)`,
 	`import statemod as sm; out.append(sm.bump() + sm.count)`,
 	`from statemod import bump as bmp; bmp(); import statemod; out.append(statemod.count)`,
@@ -384,6 +387,8 @@ func runC09(rc *fw.RunCtx) {
 	modFiles := map[string]string{
 		"shared_mod.risor": "func triple(x) { return x * 3 }\n",
 		"statemod.risor":   "count := 0\nfunc bump() { count = count + 1; return count }\n",
+		"badmod.risor":     "func ok() { return 1 }\nfunc broken( {\n",
+		"badmod2.risor":    "x := 1\nx = undefined_in_module\n",
 	}
 	mfs := fstest.MapFS{}
 	for n, t := range modFiles {
